@@ -62,11 +62,11 @@ def run(tier, seed):
     ev.add_mc("ErrGen", g, "complete programs printed by the generator run")
     conf = core.Conformance("C19", ev, wd)
     conf.run("replay", "std256", "err_vm", ["err_vm.c"], cases, "trace/ErrTrace.tla",
-             nontrivial=nontrivial, min_per_shard=100)
+             nontrivial=nontrivial, min_per_shard=100, stateless=False)
     # code -> spec: seeded random token streams, longer and deeper than the model bounds
     rnd = random_programs(rng, 4000 if quick else 60000, 40)
     conf.run("random", "std256", "err_vm", ["err_vm.c"], rnd, "trace/ErrTrace.tla", nontrivial=nontrivial,
-             min_per_shard=100)
+             min_per_shard=100, stateless=False)
     context_half(conf, ev, wd, rng, quick)
     ev.cov["exhaustive"] = True
     ev.cov["exhaustive_note"] = "all complete programs of the model within the generator's token budget were replayed"
